@@ -15,19 +15,19 @@ CHECKS = {
  "C20": ("exploration", "exhaustive table enumeration + Hypothesis differential testing against an independent reference AES",
          "All byte tables, ShiftRows positions and a GF(2) basis of MixColumns are enumerated completely; FIPS-197/SP 800-38A known answers; "
          "thousands of Hypothesis-drawn operation sequences (shared key pool, so the round-key cache is exercised) are compared with an independently "
-         "written reference; the pypdf stream wrapper is checked for every length 0..64 x 3 key sizes; wrong lengths must raise ValueError only.",
+         "written reference; the pypdf stream wrapper is checked for every length 0..64 x 3 key sizes; wrong lengths must raise ValueError only. After patch_pypdf_fallback_aes() every AES name in the three patched pypdf namespaces is compared with the reference, and AlgV5 /Perms values round-trip.",
          "Trusts vf/gen/refaes.py (self-checked against the standard's vectors on every run). Random part is sampling: absence of a key/block-specific fault is not proved, "
          "but AES being table-driven and linear in MixColumns, the exhaustive parts cover every table entry the cipher can touch.", "DESIGN.md §4 C20"),
  "C19": ("exploration", "exhaustive enumeration of small OMML trees + Hypothesis random trees against an independent reference renderer",
          "Every structural element with every optional child/attribute present or absent is enumerated alone, between runs and nested one level into every operand slot; "
          "random trees to depth 6 (property elements interleaved, all mapped symbols, brackets, malformed radicals, oMathPara). Oracle: totality, determinism, every run token "
-         "exactly once in source order, brace balance, and full match against an independently written reference renderer (regex, whitespace-insensitive).",
+         "exactly once in source order, brace balance, and full match against an independently written reference renderer (regex, whitespace-insensitive). Call sites: 1-4 generated DOCX files with up to 12 formulas (and a batch of 6 x 40) extracted one after another in a fresh process must report what the converter gives for the same element.",
          "Reference renderer and symbol table (derived from Unicode names) are trusted; trees follow schema child order; trees with malformed radicals are judged by clauses 1-4 only; "
          "sampling beyond the enumerated sizes.", "DESIGN.md §4 C19"),
  "C07": ("exploration", "Hypothesis path-string generation + exhaustive extension/case/stem product against an independent routing table, 3 MIME configurations",
          "Every documented extension x 5 case masks x 14 stems x 3 MIME configurations is enumerated; thousands of generated paths (directory/stem grammar, every extension known to the "
          "README, the router and the platform mimetypes database, junk) per configuration check is_supported_file <=> get_extractor, exact error type, documented extractor, alias==base, "
-         "case/stem/directory/MIME invariance; read_file dispatch is checked with spies on real temp files.",
+         "case/stem/directory/MIME invariance; read_file dispatch is checked with spies on real temp files. Paths with query/fragment/separator tails, symbolic links, and histories of MIME-configuration switches inside one process are included.",
          "The reference table is hand-transcribed from the README; MIME fallback outcomes for undocumented extensions are only checked for equivalence of the two entry points.", "DESIGN.md §4 C07"),
  "C08": ("exploration", "Hypothesis model generation of plain/encrypted pairs per container mechanism with the harness' own writers; fresh-process differential for empty-password PDFs",
          "Thousands of generated JSON models per run are rendered to OLE2-wrapped OOXML, ODF manifests (3 namespace spellings, any member subset), BIFF8 (FILEPASS at every globals position), DOC FIB flags, "
@@ -54,7 +54,7 @@ CHECKS = {
  "C11": ("exploration", "exhaustive boundary lattice + Hypothesis vectors against an exact-rational reference predicate; forged real ZIP packages with an open/validate event monitor",
          "validate_zipfile is compared with an independently written reference on the complete single-clause boundary lattice and on tens of thousands of generated (entries, limits) vectors built "
          "around the thresholds; 12 real package kinds get extra members with forged central-directory sizes on either side of each DEFAULT limit (incl. 50 000/50 001 entries) and must be rejected "
-         "exactly when the reference rejects, with no member opened before validation or after rejection; tell() preservation of validate_zip_bytesio.",
+         "exactly when the reference rejects, with no member opened before validation or after rejection; tell() preservation of validate_zip_bytesio. One BytesIO opened several times under changing limits and refilled with other packages is judged open by open.",
          "Base packages are repository fixtures re-packed by zipfile; the 'no extractor opens ZipFile directly' clause is observed at run time on the driven paths only; the entry-count clause is not "
          "judged where counting directories would change the verdict.", "DESIGN.md §4 C11"),
  "C18": ("fault_enumeration", "Hypothesis-generated Graph libraries and operations against a reference walk; exhaustive enumeration of (request index x fault kind) per run with fault-free retry",
@@ -71,7 +71,7 @@ CHECKS = {
  "C02": ("exploration", "model-based Hypothesis generation: abstract documents with unique class-tagged tokens rendered by independent writers to 17 formats; token-sequence oracle with known-finding attribution by neutralisation",
          "Documents over paragraphs/runs/tabs/breaks/links/tracked changes/comments/notes/fields/content controls/headings/nested lists/tables (multi-paragraph, nested, empty cells)/text boxes/groups/"
          "headers/footers/speaker notes are rendered to docx, pptx, odt, odp, odg, rtf, html, mhtml, epub, txt, md, csv, tsv, json, pdf, eml, mbox and extracted; every body token must occur exactly once, in order, "
-         "separated across boundaries, no excluded token, no alphanumeric residue. A failure is tolerated only if neutralising the feature of a listed known finding makes the document pass and the failing clause is the listed one.",
+         "separated across boundaries, no excluded token, no alphanumeric residue. A failure is tolerated only if neutralising the feature of a listed known finding makes the document pass and the failing clause is the listed one. Spreadsheet grids are checked cell by cell in the sheet text; a character leg puts non-ASCII letters (Latin-1 ... supplementary planes) behind every token in the 11 formats with a declared encoding and requires them unchanged.",
          "Writers are the harness's own (self-checked for well-formedness) and part of the trusted base; only tokens are judged; xlsx/ods/xls/ppt legs are covered by C13/C03; visual reading order beyond the documented rule is not judged.", "DESIGN.md §4 C02"),
  "C03": ("exploration", "model-based Hypothesis generation of multi-unit documents (empty units, permuted part order, absolute targets, heading structures) + all fixtures; unit count/number/partition/join oracle",
          "Generated documents with up to 8 (thorough 30) pages/slides/chapters/messages incl. empty ones are rendered to 17 formats; each unit must carry its 1-based source position, hold exactly the tokens of its "
@@ -94,7 +94,7 @@ CHECKS = {
          "Floats are finite, dict keys are strings; the absence of escaping for marker keys in plain dicts is a listed design-level known finding.", "DESIGN.md §4 C05"),
  "C06": ("exploration", "differential testing of extraction across repetitions, fresh interpreters and hash seeds + Hypothesis-drawn observer histories with an idempotence/invariance oracle",
          "Every fixture and a seeded sample of generated documents of all formats is extracted twice in-process and in fresh interpreters under four PYTHONHASHSEED values; the to_json digests must agree and the input "
-         "buffer must be unchanged. For every input, random sequences of observers (text, units, images incl. partial reads, tables, metadata, JSON forms) must return the same value each time and never change to_json().",
+         "buffer must be unchanged. For every input, random sequences of observers (text, units, images incl. partial reads, tables, metadata, JSON forms) must return the same value each time and never change to_json(). Observers with flipped boolean options are included and every observation is compared with a never-observed result; a serialised result must not change when the same or sibling documents are extracted later under other paths.",
          "Hash seeds and histories are sampled; failures of extraction are compared by exception type only.", "DESIGN.md §4 C06"),
  "C04": ("exploration", "Hypothesis: generated documents of every format with Unicode document properties, container-aware mutants that are still accepted, all fixtures x path-argument forms; interface battery oracle",
          "For results of 21 extractors over generated documents/spreadsheets/image documents (document properties from a Unicode strategy, OLE code pages 1252/65001/1200), fixtures and accepted mutants, with nine path-argument "
